@@ -25,4 +25,9 @@ func registerOther() {
 	regS("C08", "dealer and blinds land on the right seats", 120000)
 	regS("C17", "the button moves correctly", 120000)
 	regS("C18", "no double booking, no crash", 60000)
+	// the same world over the generated copy (scheduling points at every
+	// statement of seat_manager): runs in the quick tier
+	props["C08"].GenS = 3000
+	props["C17"].GenS = 3000
+	props["C18"].GenS = 6000
 }
